@@ -12,6 +12,8 @@ exactly these mechanical changes:
      encoding: assert invariant on entry; havoc the loop-modified state; assume invariant;
      one arbitrary iteration; assert invariant and variant decrease on the back edge (path
      ends); the code after the loop continues from invariant && !test.
+ T4  `"literal".join(x)` -> `__pyvc_join__("literal", x)` (CPython's str.join rejects proxy
+     strings; for real strings the helper calls str.join)
  T3  names bound in the module namespace after execution: `struct`, `unpack`, `pack`,
      `calcsize` (model of CPython's struct, models.py), the builtins `len`, `int`,
      `isinstance`, `max`, `min`, `bytes`, `bytearray`, `hex`, `ord`, `chr`, `str`,
@@ -129,6 +131,16 @@ class _Transform(ast.NodeTransformer):
             return ast.copy_location(
                 ast.Call(func=ast.Name(id="__pyvc_fmt__", ctx=ast.Load()),
                          args=[node.left, node.right], keywords=[]), node)
+        return node
+
+    def visit_Call(self, node):
+        self.generic_visit(node)
+        f = node.func
+        # T4: "literal".join(x) / "literal".format(...) -> proxy-aware helpers (CPython's str methods reject proxies)
+        if isinstance(f, ast.Attribute) and isinstance(f.value, ast.Constant) and isinstance(f.value.value, (str, bytes)):
+            if f.attr == "join" and len(node.args) == 1 and not node.keywords:
+                return ast.copy_location(
+                    ast.Call(func=ast.Name(id="__pyvc_join__", ctx=ast.Load()), args=[f.value, node.args[0]], keywords=[]), node)
         return node
 
     def _loop(self, node):
